@@ -3,6 +3,8 @@
 
 def _nontrivial(line):
     f = line.split(" ; ")[0].split()
+    if f[0] == "C06Z":
+        return True                            # every damaged-gzip case carries at least one message
     if f[0] == "C06W":
         return f[2] != "-" or f[5] != "-"      # the client or the handler sends at least one message
     return len(f[7]) > 1 or f[10] != "-"       # a non-empty request body or at least one reply
